@@ -8,6 +8,6 @@ CONSTANTS
 INIT TInit
 NEXT TNext
 CONSTRAINT Track
-INVARIANTS NotAccepted TypeOK Inv_PortFree Inv_ServingBefore Inv_NoTruncation Inv_Owned Inv_DispatchedKept Inv_WakeUnserved
+INVARIANTS Report TypeOK Inv_PortFree Inv_ServingBefore Inv_NoTruncation Inv_Owned Inv_DispatchedKept Inv_WakeUnserved
 POSTCONDITION Post
 CHECK_DEADLOCK FALSE
